@@ -10,13 +10,16 @@ from ropt.results import FunctionResults, Results
 def _get_new_optimal_result(
     optimal_result: FunctionResults | None, results: FunctionResults
 ) -> FunctionResults | None:
+    assert results.functions is not None
+    objective = results.functions.weighted_objective
+    # A result with an undefined objective can never be the optimum:
+    if np.isnan(objective):
+        return None
     if optimal_result is None:
         return results
     assert optimal_result.functions is not None
-    assert results.functions is not None
     optimal = optimal_result.functions.weighted_objective
-    objective = results.functions.weighted_objective
-    if objective < optimal:
+    if np.isnan(optimal) or objective < optimal:
         return results
     return None
 
@@ -66,8 +69,11 @@ def _update_optimal_result(
     results: tuple[Results, ...],
     transformed_results: tuple[Results, ...],
     constraint_tolerance: float | None,
-) -> FunctionResults | None:
-    return_result: FunctionResults | None = None
+) -> tuple[FunctionResults, FunctionResults] | None:
+    # The results are compared in the domain of the optimizer: optimal_result
+    # is the transformed version of the current optimal result. The new optimal
+    # result is returned together with its transformed version.
+    return_result: tuple[FunctionResults, FunctionResults] | None = None
     for item, transformed_item in zip(results, transformed_results, strict=False):
         if (
             isinstance(transformed_item, FunctionResults)
@@ -75,8 +81,10 @@ def _update_optimal_result(
             and not _violates_constraint(transformed_item, constraint_tolerance)
         ):
             assert isinstance(item, FunctionResults)
-            new_optimal_result = _get_new_optimal_result(optimal_result, item)
+            new_optimal_result = _get_new_optimal_result(
+                optimal_result, transformed_item
+            )
             if new_optimal_result is not None:
                 optimal_result = new_optimal_result
-                return_result = new_optimal_result
+                return_result = (item, transformed_item)
     return return_result
